@@ -1,17 +1,16 @@
-From PV Require Import C14.Spec.
+From PV Require Import C14.Spec C14.Lib.
 
-Lemma lower_not_ws c : is_lower_us c = true -> is_ws c = false.
-Proof. unfold is_lower_us, is_ws. lia. Qed.
-Lemma lower_no_ws n : forallb is_lower_us n = true -> no_ws n = true.
-Proof.
-  induction n as [|c n IH]; cbn [forallb no_ws]; auto. intros H.
-  apply andb_true_iff in H as [Hc Hn]. rewrite (lower_not_ws _ Hc). cbn [negb andb]. now apply IH.
-Qed.
-Lemma lower_no_colon n : forallb is_lower_us n = true -> contains 58 n = false.
+Lemma namech_no_colon n : forallb is_name_ch n = true -> contains 58 n = false.
 Proof.
   induction n as [|c n IH]; auto. cbn [forallb]. intros H.
   apply andb_true_iff in H as [Hc Hn]. rewrite contains_cons, (IH Hn).
-  unfold is_lower_us in Hc. lia.
+  unfold is_name_ch, is_lower_us in Hc. lia.
+Qed.
+Lemma namech_no_nl n : forallb is_name_ch n = true -> contains 10 n = false.
+Proof.
+  induction n as [|c n IH]; auto. cbn [forallb]. intros H.
+  apply andb_true_iff in H as [Hc Hn]. rewrite contains_cons, (IH Hn).
+  unfold is_name_ch, is_lower_us in Hc. lia.
 Qed.
 Lemma digits_no_colon n : all_digits n = true -> contains 58 n = false.
 Proof.
@@ -20,26 +19,45 @@ Proof.
   rewrite (IH Hn). unfold is_digit in Hc. lia.
 Qed.
 
-Lemma name_ok_inv n : io_name_ok n = true -> n <> [] /\ forallb is_lower_us n = true.
-Proof. destruct n; [discriminate|]. intros H. split; [congruence|exact H]. Qed.
+Lemma name_ok_inv n : io_name_ok n = true ->
+  forallb is_name_ch n = true /\ head_nows n = true /\ last_nows n = true.
+Proof. unfold io_name_ok. intros H. apply andb_true_iff in H as [H H3]. apply andb_true_iff in H as [H1 H2]. auto. Qed.
+
+Lemma seg_ok_inv x : seg_ok x = true -> contains 58 x = false /\ contains 10 x = false.
+Proof. unfold seg_ok. intros H. apply andb_true_iff in H as [H1 H2]. split; now apply negb_true_iff. Qed.
+
+Lemma bad_val_inv v : bad_val v = true ->
+  head_nows v = true /\ last_nows v = true /\ contains 58 v = false /\ contains 10 v = false /\ parse_int v = None.
+Proof.
+  unfold bad_val. intros H. apply andb_true_iff in H as [H H4]. apply andb_true_iff in H as [H H3].
+  apply andb_true_iff in H as [H1 H2]. apply seg_ok_inv in H3 as [H3 H3'].
+  destruct (parse_int v); [discriminate|]. auto.
+Qed.
+
+Lemma dec_inv v : is_dec v = true ->
+  head_nows v = true /\ last_nows v = true /\ contains 58 v = false /\ contains 10 v = false.
+Proof.
+  intros H. destruct (is_dec_tok _ H) as [Hne Hnw]. destruct (no_ws_head_last v Hne Hnw) as [Hh Hl].
+  destruct v as [|c v]; [congruence|]. cbn [is_dec] in H. repeat split; auto.
+  - now apply digits_no_colon.
+  - now apply (no_ws_contains 10 _ eq_refl).
+Qed.
 
 Lemma line_body_no_nl i : ioitem_ok i = true ->
   exists body, k_ioline i = body ++ [10] /\ contains 10 body = false.
 Proof.
-  destruct i as [n v|j|n v]; cbn [ioitem_ok k_ioline]; intros H.
-  - apply andb_true_iff in H as [Hn Hv]. apply name_ok_inv in Hn as [_ Hn].
-    destruct v as [|c v]; [discriminate|]. cbn [is_dec] in Hv.
-    eexists. split; [reflexivity|]. rewrite contains_app, !contains_cons.
-    rewrite (no_ws_contains 10 _ eq_refl (lower_no_ws _ Hn)).
-    change (c :: v) with ([] ++ c :: v).
-    cbn [app]. rewrite <- contains_cons.
-    rewrite (no_ws_contains 10 _ eq_refl (all_digits_no_ws _ Hv)). reflexivity.
-  - unfold junk_ok in H. apply andb_true_iff in H as [_ H]. apply negb_true_iff in H. eauto.
-  - apply andb_true_iff in H as [Hn Hv]. apply name_ok_inv in Hn as [_ Hn].
-    apply name_ok_inv in Hv as [_ Hv].
-    eexists. split; [reflexivity|]. rewrite contains_app, !contains_cons.
-    rewrite (no_ws_contains 10 _ eq_refl (lower_no_ws _ Hn)).
-    rewrite (no_ws_contains 10 _ eq_refl (lower_no_ws _ Hv)). reflexivity.
+  destruct i as [n v|j|n v|n x y]; cbn [ioitem_ok k_ioline]; intros H.
+  - apply andb_true_iff in H as [Hn Hv]. apply name_ok_inv in Hn as [Hn _].
+    apply dec_inv in Hv as [_ [_ [_ Hv]]].
+    eexists. split; [reflexivity|]. rewrite contains_app, !contains_cons, (namech_no_nl _ Hn), Hv. reflexivity.
+  - apply seg_ok_inv in H as [_ H]. eauto.
+  - apply andb_true_iff in H as [Hn Hv]. apply name_ok_inv in Hn as [Hn _].
+    apply bad_val_inv in Hv as [_ [_ [_ [Hv _]]]].
+    eexists. split; [reflexivity|]. rewrite contains_app, !contains_cons, (namech_no_nl _ Hn), Hv. reflexivity.
+  - apply andb_true_iff in H as [H _]. apply andb_true_iff in H as [H Hy]. apply andb_true_iff in H as [Hn Hx].
+    apply name_ok_inv in Hn as [Hn _]. apply seg_ok_inv in Hx as [_ Hx]. apply seg_ok_inv in Hy as [_ Hy].
+    eexists. split; [reflexivity|].
+    rewrite contains_app, !contains_cons, contains_app, !contains_cons, (namech_no_nl _ Hn), Hx, Hy. reflexivity.
 Qed.
 
 Lemma lines_keep_k_io items :
@@ -52,34 +70,17 @@ Proof.
   rewrite <- app_assoc. cbn [app]. rewrite lines_keep_line by exact Hb. now rewrite IH.
 Qed.
 
-Lemma strip_kv n v :
-  n <> [] -> no_ws n = true -> v <> [] -> no_ws v = true ->
-  strip ((n ++ 58 :: 32 :: v) ++ [10]) = n ++ 58 :: 32 :: v.
+(* a "name: rest" line survives strip() unchanged when name starts and rest ends with a non-blank *)
+Lemma strip_named n rest :
+  head_nows n = true -> last_nows rest = true ->
+  strip ((n ++ 58 :: 32 :: rest) ++ [10]) = n ++ 58 :: 32 :: rest.
 Proof.
-  intros Hn1 Hn2 Hv1 Hv2. unfold strip.
-  assert (L : lstrip ((n ++ 58 :: 32 :: v) ++ [10]) = (n ++ 58 :: 32 :: v) ++ [10]).
-  { destruct n as [|c n]; [congruence|]. cbn [no_ws forallb] in Hn2.
-    apply andb_true_iff in Hn2 as [Hc _]. apply negb_true_iff in Hc.
-    cbn [app lstrip]. now rewrite Hc. }
-  rewrite L, rstrip_snoc. change (is_ws 10) with true. cbv iota.
-  change (n ++ 58 :: 32 :: v) with (n ++ [58; 32] ++ v). rewrite app_assoc.
-  now apply rstrip_no_ws_tail.
+  intros Hn Hr. apply strip_line; [now apply head_nows_app|].
+  change (n ++ 58 :: 32 :: rest) with (n ++ [58; 32] ++ rest). rewrite app_assoc. now apply last_nows_app.
 Qed.
 
-Lemma alpha_not_int v : io_name_ok v = true -> parse_int v = None.
-Proof.
-  intros H. apply name_ok_inv in H as [Hne Hl]. destruct v as [|c v]; [congruence|].
-  unfold parse_int, parse_signed. rewrite strip_no_ws by (now apply lower_no_ws).
-  cbn [forallb] in Hl. apply andb_true_iff in Hl as [Hc _].
-  assert (c =? 45 = false) as -> by (unfold is_lower_us in Hc; lia).
-  assert (c =? 43 = false) as -> by (unfold is_lower_us in Hc; lia).
-  cbn [digits_us]. unfold digit_val.
-  assert ((48 <=? c) && (c <=? 57) = false) as -> by (unfold is_lower_us in Hc; lia).
-  unfold is_lower_us in Hc.
-  destruct ((97 <=? c) && (c <=? 122)) eqn:E.
-  - assert (c - 87 <? 10 = false) as -> by lia. now rewrite andb_false_r.
-  - assert (c = 95) as -> by lia. reflexivity.
-Qed.
+Lemma named_nonempty (n rest : bytes) : head_nows n = true -> n ++ 58 :: 32 :: rest <> [].
+Proof. destruct n; [discriminate|]. discriminate. Qed.
 
 Definition io_step (d : list (bytes * Z)) (i : ioitem) : list (bytes * Z) :=
   match i with KV n v => assoc_set n (dec_val v) d | _ => d end.
@@ -87,28 +88,33 @@ Definition io_step (d : list (bytes * Z)) (i : ioitem) : list (bytes * Z) :=
 Lemma io_line_item d i :
   ioitem_ok i = true -> io_line false d (k_ioline i) = Val (io_step d i).
 Proof.
-  destruct i as [n v|j|n v]; cbn [ioitem_ok k_ioline io_step]; intros H.
-  - apply andb_true_iff in H as [Hn Hv]. apply name_ok_inv in Hn as [Hn1 Hn].
-    destruct (is_dec_tok _ Hv) as [Hv1 Hv2].
-    unfold io_line. rewrite strip_kv by (auto using lower_no_ws).
-    assert (E : n ++ 58 :: 32 :: v <> []) by (destruct n; [congruence|discriminate]).
+  destruct i as [n v|j|n v|n x y]; cbn [ioitem_ok k_ioline io_step]; intros H.
+  - apply andb_true_iff in H as [Hn Hv]. apply name_ok_inv in Hn as [Hn [Hh _]].
+    pose proof (dec_inv _ Hv) as [_ [Hl [Hc _]]].
+    unfold io_line. rewrite strip_named by assumption.
+    pose proof (named_nonempty n v Hh) as E.
     destruct (n ++ 58 :: 32 :: v) eqn:En; [congruence|]. rewrite <- En. clear E En.
-    unfold colon_sp. rewrite split_seq_two.
-    + now rewrite (parse_int_dec _ Hv).
-    + now apply lower_no_colon.
-    + destruct v; [discriminate|]. now apply digits_no_colon.
-  - unfold junk_ok in H. apply andb_true_iff in H as [H1 _]. apply negb_true_iff in H1.
+    unfold colon_sp. rewrite split_seq_two by (auto using namech_no_colon).
+    now rewrite (parse_int_dec _ Hv).
+  - apply seg_ok_inv in H as [H1 _].
     unfold io_line. assert (C : contains 58 (strip (j ++ [10])) = false).
     { apply contains_strip_false. rewrite contains_app, H1. reflexivity. }
     destruct (strip (j ++ [10])) as [|c l] eqn:E; [reflexivity|].
     unfold colon_sp. now rewrite (split_seq_nosep _ 58 32 C).
-  - apply andb_true_iff in H as [Hn Hv]. pose proof (alpha_not_int _ Hv) as Hp.
-    apply name_ok_inv in Hn as [Hn1 Hn]. apply name_ok_inv in Hv as [Hv1 Hv].
-    unfold io_line. rewrite strip_kv by (auto using lower_no_ws).
-    assert (E : n ++ 58 :: 32 :: v <> []) by (destruct n; [congruence|discriminate]).
+  - apply andb_true_iff in H as [Hn Hv]. apply name_ok_inv in Hn as [Hn [Hh _]].
+    apply bad_val_inv in Hv as [_ [Hl [Hc [_ Hp]]]].
+    unfold io_line. rewrite strip_named by assumption.
+    pose proof (named_nonempty n v Hh) as E.
     destruct (n ++ 58 :: 32 :: v) eqn:En; [congruence|]. rewrite <- En. clear E En.
-    unfold colon_sp. rewrite split_seq_two by (now apply lower_no_colon).
+    unfold colon_sp. rewrite split_seq_two by (auto using namech_no_colon).
     now rewrite Hp.
+  - apply andb_true_iff in H as [H Hl]. apply andb_true_iff in H as [H Hy]. apply andb_true_iff in H as [Hn Hx].
+    apply name_ok_inv in Hn as [Hn [Hh _]]. apply seg_ok_inv in Hx as [Hx _]. apply seg_ok_inv in Hy as [Hy _].
+    unfold io_line. rewrite strip_named; [|assumption|].
+    2:{ change (x ++ 58 :: 32 :: y) with (x ++ [58; 32] ++ y). rewrite app_assoc. now apply last_nows_app. }
+    pose proof (named_nonempty n (x ++ 58 :: 32 :: y) Hh) as E.
+    destruct (n ++ 58 :: 32 :: x ++ 58 :: 32 :: y) eqn:En; [congruence|]. rewrite <- En. clear E En.
+    unfold colon_sp. rewrite split_seq_three by (auto using namech_no_colon). reflexivity.
 Qed.
 
 Lemma io_fold_items items : forall d,
@@ -141,7 +147,7 @@ Lemma fold_get items : forall d k,
 Proof.
   induction items as [|i items IH]; intros d k; [reflexivity|].
   cbn [fold_left io_last]. rewrite IH. f_equal.
-  destruct i as [n v|j|n v]; cbn [io_step io_upd]; try reflexivity. apply assoc_get_set.
+  destruct i as [n v|j|n v|n x y]; cbn [io_step io_upd]; try reflexivity. apply assoc_get_set.
 Qed.
 
 Lemma fold_empty items : forall d,
@@ -150,8 +156,9 @@ Proof.
   induction items as [|i items IH]; intros d.
   - cbn. tauto.
   - cbn [fold_left]. rewrite IH. unfold has_kv. cbn [existsb].
-    destruct i as [n v|j|n v]; cbn [io_step is_kv orb].
+    destruct i as [n v|j|n v|n x y]; cbn [io_step is_kv orb].
     + split; [intros [H _]; now apply assoc_set_nonempty in H|intros [_ H]; discriminate].
+    + tauto.
     + tauto.
     + tauto.
 Qed.
@@ -183,7 +190,9 @@ Proof. exists io_witness. repeat split; vm_compute; reflexivity. Qed.
 
 Example io_nonvacuous :
   let items := [KV (bs "rchar") (bs "1"); KV (bs "wchar") (bs "2"); Junk []; KV (bs "syscr") (bs "3");
-                KV (bs "syscw") (bs "4"); BadKV (bs "foo") (bs "bar"); KV (bs "read_bytes") (bs "5");
+                KV (bs "syscw") (bs "4"); BadKV (bs "foo") (bs "bar"); BadKV (bs "rchar") (bs "999 (partial)");
+                BadKV (bs "syscw") (bs "7x"); Bad3 (bs "wchar") (bs "5") (bs "6"); KV (bs "old read_bytes") (bs "123");
+                KV (bs "read_bytes") (bs "5");
                 KV (bs "write_bytes") (bs "18446744073709551615"); KV (bs "rchar") (bs "9");
                 KV (bs "cancelled_write_bytes") (bs "0")] in
   forallb ioitem_ok items = true /\ spec_io items = Val [3; 4; 5; 18446744073709551615; 9; 2].
